@@ -631,8 +631,10 @@ package pokertable
 
 //@ spec inHandStatus(st) = st == TableStateStatus_TableGameOpened || st == TableStateStatus_TableGamePlaying || st == TableStateStatus_TableGameSettled
 
+//@ spec handEntryLeaves(te, ids) = exists(k, 0, 10, k < len(GPI(te)) && leavingID(ids, PS(te)[GPI(te)[k]].PlayerID))
+
 //@ func (*tableEngine).calcLeavePlayers
-//@   property C01 C03
+//@   property C01 C02 C03
 //@   returns newPS, newSeatMap, newGPI
 //@   config M 2..10 quick 2..5 : tableMaxSeatCount = M
 //@   requires te != nil && te.table != nil && St(te) != nil && 0 <= len(leavePlayerIDs) && len(leavePlayerIDs) <= 10 && 0 <= len(currentPlayers) && len(currentPlayers) <= tableMaxSeatCount
@@ -655,6 +657,7 @@ package pokertable
 //@   ensures hand-entries-kept-between-hands: !(status == TableStateStatus_TableGameOpened || status == TableStateStatus_TableGamePlaying || status == TableStateStatus_TableGameSettled) ==> sameslice(newGPI, GPI(te))
 //@   ensures hand-entries-in-range: inHandStatus(status) ==> 0 <= len(newGPI) && len(newGPI) <= len(GPI(te)) && forall(k, 0, 10, k < len(newGPI) ==> 0 <= newGPI[k] && newGPI[k] < len(newPS))
 //@   ensures hand-entries-follow-players: inHandStatus(status) ==> forall(k, 0, 10, k < len(newGPI) ==> exists(q, 0, 10, q < len(GPI(te)) && newPS[newGPI[k]] == PS(te)[GPI(te)[q]]))
+//@   ensures hand-list-stable-unless-a-dealt-in-player-leaves: inHandStatus(status) && !handEntryLeaves(te, leavePlayerIDs) ==> len(newGPI) == len(GPI(te)) && forall(k, 0, 10, k < len(GPI(te)) ==> newPS[newGPI[k]] == PS(te)[GPI(te)[k]])
 //@   ensures seat-map-rebuilt: len(newSeatMap) == tableMaxSeatCount && fresh(newSeatMap)
 //@             && forall(j, 0, 10, j < len(newPS) ==> newSeatMap[newPS[j].Seat] == j)
 //@             && forall(s, 0, 10, s < tableMaxSeatCount ==> newSeatMap[s] == -1 || (0 <= newSeatMap[s] && newSeatMap[s] < len(newPS) && newPS[newSeatMap[s]].Seat == s))
@@ -664,7 +667,7 @@ package pokertable
 
 //@ func (*tableEngine).batchRemovePlayers
 //@   retsplit
-//@   property C01 C03
+//@   property C01 C02 C03
 //@   returns err
 //@   config M 2..10 quick 2..6 : te.table.Meta.TableMaxSeatCount = M, te.sm.MaxSeat = M, len(te.sm.SeatData) = M
 //@   requires TableWF(te) && Coupled(te) && HandShape(te) && 0 <= len(playerIDs) && len(playerIDs) <= MaxSeats(te)
@@ -673,6 +676,7 @@ package pokertable
 //@   ensures unknown-refused: err != nil <==> exists(i, 0, 10, i < len(playerIDs) && !old(knows(te, playerIDs[i])))
 //@   ensures refused-changes-nothing: err != nil ==> playersSame(te) && seatsSame(te) && smSame(te)
 //@   ensures stayers-kept-with-their-chips: err == nil ==> forall(i, 0, 10, i < old(len(PS(te))) && !leavingID(playerIDs, old(PS(te)[i].PlayerID)) ==> inPS(te, old(PS(te)[i])))
+//@   ensures hand-list-denotes-the-same-players: old(inHandStatus(St(te).Status)) && err == nil ==> len(GPI(te)) == old(len(GPI(te))) && forall(k, 0, 10, k < len(GPI(te)) ==> PS(te)[GPI(te)[k]] == old(PS(te)[GPI(te)[k]]))
 //@   ensures leavers-gone: err == nil ==> forall(j, 0, 10, j < len(PS(te)) ==> !leavingID(playerIDs, PS(te)[j].PlayerID)
 //@             && exists(i, 0, 10, i < old(len(PS(te))) && PS(te)[j] == old(PS(te)[i])))
 
@@ -680,7 +684,7 @@ package pokertable
 //@   inline
 
 //@ func (*tableEngine).PlayersLeave
-//@   property C01 C03 C16
+//@   property C01 C02 C03 C16
 //@   returns err
 //@   config M 2..10 quick 2..5 : te.table.Meta.TableMaxSeatCount = M, te.sm.MaxSeat = M, len(te.sm.SeatData) = M
 //@   requires TableWF(te) && Coupled(te) && HandShape(te) && 0 <= len(playerIDs) && len(playerIDs) <= MaxSeats(te) && !held(te.lock)
@@ -690,6 +694,7 @@ package pokertable
 //@   ensures unknown-refused: err != nil <==> exists(i, 0, 10, i < len(playerIDs) && !old(knows(te, playerIDs[i])))
 //@   ensures refused-changes-nothing: err != nil ==> playersSame(te) && seatsSame(te) && smSame(te)
 //@   ensures stayers-kept-with-their-chips: err == nil ==> forall(i, 0, 10, i < old(len(PS(te))) && !leavingID(playerIDs, old(PS(te)[i].PlayerID)) ==> inPS(te, old(PS(te)[i])))
+//@   ensures hand-list-denotes-the-same-players: old(inHandStatus(St(te).Status)) && err == nil ==> len(GPI(te)) == old(len(GPI(te))) && forall(k, 0, 10, k < len(GPI(te)) ==> PS(te)[GPI(te)[k]] == old(PS(te)[GPI(te)[k]]))
 //@   ensures leavers-gone: err == nil ==> forall(j, 0, 10, j < len(PS(te)) ==> !leavingID(playerIDs, PS(te)[j].PlayerID))
 
 // ---- blinds (C12) and the action deadline (C15) ---------------------------------------------------
